@@ -30,7 +30,7 @@ ASSUMPTIONS = ['golden = first call in a fresh interpreter (PYTHONHASHSEED=0)', 
 REQUIRED = ['evaluations', 'golden_subprocesses', 'hashseed_variants_compared', 'interaction_core_replayed', 'history_replays_compared', 'thread_calls_compared', 'barrier_rounds',
             'injected_yields', 'state_fingerprints_compared', 'returned_matrices_rehashed', 'idempotence_pairs', 'argument_snapshots_compared',
             'overlapping_call_pairs']
-TIMEOUT = {'quick': 1200, 'thorough': 7200}
+TIMEOUT = {'quick': 3600, 'thorough': 21600}
 SEGNO_MODULES = ['consts', 'encoder', 'writers', 'utils', 'helpers', 'cli']
 INJECT_FUNCS = {'encoder': ['find_and_apply_best_mask', 'add_finder_patterns', 'add_alignment_patterns', 'make_matrix', '_encode',
                             'make_segment', 'prepare_data', 'make_blocks', 'make_final_message', 'boost_error_level'],
@@ -159,17 +159,17 @@ def golden_in_subprocess(calls, rec=None):
     """Each call alone, as the first call of a fresh interpreter."""
     res = {}
     for k, c in enumerate(calls):
-        p = subprocess.run([sys.executable, '-m', 'vmon.props.c15', 'one'], input=json.dumps(core.enc(c)).encode(), capture_output=True,
-                           env=core.child_env(), cwd=core.VERIF, timeout=300)
-        if p.returncode != 0:
+        p = core.run_sub([sys.executable, '-m', 'vmon.props.c15', 'one'], input=json.dumps(core.enc(c)).encode(), capture_output=True,
+                           env=core.child_env(), cwd=core.VERIF)
+        if p.returncode != 0:   # (None = watchdog)
             res[c['id']] = 'golden-failed:%s' % p.stderr.decode('utf-8', 'replace')[-200:]
         else:
             res[c['id']] = p.stdout.decode().strip()
         if k % 4 == 0 and rec is not None:
             # the same call in another fresh interpreter with another string-hash seed: results must not depend on set / dict order
             env = dict(core.child_env(), PYTHONHASHSEED=str(1000 + k))
-            p2 = subprocess.run([sys.executable, '-m', 'vmon.props.c15', 'one'], input=json.dumps(core.enc(c)).encode(), capture_output=True,
-                                env=env, cwd=core.VERIF, timeout=300)
+            p2 = core.run_sub([sys.executable, '-m', 'vmon.props.c15', 'one'], input=json.dumps(core.enc(c)).encode(), capture_output=True,
+                                env=env, cwd=core.VERIF)
             rec.count('hashseed_variants_compared')
             if p2.returncode == 0 and p.returncode == 0 and p2.stdout.decode().strip() != res[c['id']]:
                 rec.deviation('C15', 'result-depends-on-hash-seed', {'seed0': res[c['id']], 'other': p2.stdout.decode().strip(),
